@@ -1988,7 +1988,8 @@ void SPxSolverBase<R>::setType(Type tp)
          }
       }
 
-      if(basisdim != dim())
+      // one basic variable per row, in both representations (dim() is the number of columns in row representation)
+      if(basisdim != this->nRows())
          return false;
 
       // basis valid
